@@ -17,7 +17,12 @@ use std::fmt;
 /// Logarithm of the address space size that [`TwoLevelStateStorage`] is able to handle.
 /// This is enough for ARM64, x86_64 and some other architectures.
 /// Feel free to increase it if we plan to support larger address spaces.
+#[cfg(not(mmtk_verif))]
 const LOG_MAPPABLE_BYTES: usize = 48;
+/// Verification build: a 16-chunk address space (4 slabs of 4 chunks), so that whole slabs fit
+/// into a bounded symbolic execution.  Every other constant is derived from this one as usual.
+#[cfg(mmtk_verif)]
+const LOG_MAPPABLE_BYTES: usize = LOG_BYTES_IN_CHUNK + 4;
 /// Address space size a user-space program is allowed to use.
 const MAPPABLE_BYTES: usize = 1 << LOG_MAPPABLE_BYTES;
 /// The limit of mappable address
